@@ -402,7 +402,7 @@ def op_generate_batch(task):
     for c in task["cases"]:
         sys.stdout.write("@@" + json.dumps({"id": task["id"], "progress": c["cid"]}) + "\n")
         sys.stdout.flush()
-        t0 = time.time()
+        t0 = time.process_time()   # CPU time of this process: a loaded machine must not look like a hang
         rec = {"cid": c["cid"]}
         formats = dict(c["formats"])
         try:
@@ -462,7 +462,7 @@ def op_generate_batch(task):
         except Exception as e:  # noqa: BLE001
             rec["outcome"] = type(e).__name__
             rec["msg"] = str(e)[:200]
-        rec["elapsed"] = round(time.time() - t0, 3)
+        rec["elapsed"] = round(time.process_time() - t0, 3)
         outs.append(rec)
     return {"outs": outs}
 
@@ -646,6 +646,7 @@ def op_concurrency(task):
         alone[name] = _raw(_conc_call(rq))
     _sys.setswitchinterval(1e-6)
     rounds_out = []
+    patience = task.get("patience", 1)   # multiplies every wall-clock limit (a round is re-run with more patience before a hang is reported)
     for rnd in task["rounds"]:
         sys.stdout.write("@@" + json.dumps({"id": task["id"], "progress": rnd["rid"]}) + "\n")
         sys.stdout.flush()
@@ -698,7 +699,7 @@ def op_concurrency(task):
             for t in ths:
                 t.start()
             for t in ths:
-                t.join(timeout=300)
+                t.join(timeout=300 * patience)
             hung = any(t.is_alive() for t in ths)
         elif rnd.get("schedule") is None:
             C.mode = "free"
@@ -707,7 +708,7 @@ def op_concurrency(task):
             for t in ths:
                 t.start()
             for t in ths:
-                t.join(timeout=180)
+                t.join(timeout=180 * patience)
             hung = any(t.is_alive() for t in ths)
         else:
             C.mode = "sched"
@@ -725,7 +726,7 @@ def op_concurrency(task):
                     parked = [t for t in tids if C.state[t] == "parked"]
                     if not parked:
                         C.cond.wait(timeout=0.5)       # somebody is running (or blocked natively): wait for a change
-                        if _time.time() - last_progress > 90:
+                        if _time.time() - last_progress > 90 * patience:
                             hung = True
                             break
                         continue
